@@ -53,6 +53,12 @@ Definition store_blob (bs : blobs) (content encoding : str) : blobs * nat :=
   | None => (bs ++ [(k, content)], length bs)
   end.
 
+(** db.GetBlob. Since 12a5042 (parser.ReadPartContent) a blob row that cannot be
+    read makes the rebuild fail (FETCH answers NO) instead of reading as empty. The
+    model has no deletion of blob rows, and [c02_blobs_invisible] shows that every id
+    a stored row holds is a row of the table at any later time: the [None] case below
+    is unreachable from [store], so the two behaviours do not differ here (blob
+    faults are property C15). *)
 Definition get_blob (bs : blobs) (id : nat) : str :=
   match nth_error bs id with Some (_, c) => c | None => [] end.
 
